@@ -34,6 +34,11 @@ def structured(n, rng, k):
     s.add(int("0F" * 8, 16) & ((1 << n) - 1))
     s.add(int("FF00FF00FF00FF00", 16) & ((1 << n) - 1))
     s.add(int("FFFFFFFF00000000", 16) & ((1 << n) - 1))
+    if n >= 16:
+        # every byte value at every byte position of the mask: the byte-indexed lookup tables of mask() / from_mask (sse2 mask_lut, lut32/lut64,
+        # avx512f MortonTable256) are read at EVERY entry, whatever the seed
+        for v in range(256):
+            s.add(int(("%02x" % v) * 8, 16) & ((1 << n) - 1))
     for _ in range(k):
         s.add(rng.getrandbits(n))
     return sorted(s)
